@@ -227,10 +227,7 @@ impl Exec {
                         let at = innermost_panicked(w).unwrap_or(id);
                         let fam = w.nodes[at].family().unwrap();
                         let p = w.path(at);
-                        w.violate(
-                            Oracle::Panic(fam),
-                            format!("poll of {} panicked: {}", p, msg),
-                        );
+                        w.violate_f(Oracle::Panic(fam), Some(fam), format!("poll of {} panicked: {}", p, msg));
                     });
                 }
             }
@@ -313,7 +310,7 @@ impl Exec {
                 let msg = world::panic_msg(&e);
                 world::with(|w| {
                     let fam = w.nodes[id].family().unwrap();
-                    w.violate(Oracle::Panic(fam), format!("drop of the combinator panicked: {}", msg));
+                    w.violate_f(Oracle::Panic(fam), Some(fam), format!("drop of the combinator panicked: {}", msg));
                 });
             }
         }
@@ -361,7 +358,8 @@ impl Exec {
                     "lost wake-up: {} returned Pending and then invoked the waker of its most recent poll, but the task that most recently polled the combinator was not woken",
                     w.path(target)
                 );
-                w.violate(Oracle::L, m);
+                let f = w.lost_wake_culprit(target).and_then(|c| w.nodes[c].family());
+                w.violate_f(Oracle::L, f, m);
             }
         });
     }
@@ -387,7 +385,7 @@ impl Exec {
             for &l in &w.leaves {
                 let n = &w.nodes[l];
                 if let (Some(a), Some(wk)) = (n.last_answer(), n.wakers.last()) {
-                    if a.is_pend() && wk.fires.first().map(|c| *c >= poll_begin).unwrap_or(false) && w.live(l) && !w.held_back(l) {
+                    if a.is_pend() && !wk.fires.is_empty() && w.live(l) && !w.held_back(l) {
                         bad = Some(l);
                         break;
                     }
@@ -395,11 +393,14 @@ impl Exec {
             }
             if let Some(b) = bad {
                 if !w.viol.iter().any(|v| v.oracle == Oracle::L) {
+                    let during = w.nodes[b].wakers.last().and_then(|wk| wk.fires.first().cloned()).map(|c| c > poll_begin).unwrap_or(false);
                     let m = format!(
-                        "lost wake-up: the current waker of {} was invoked during the combinator's poll (from inside a child's poll), the child was not polled again before the combinator returned Pending, and the task was not woken",
-                        w.path(b)
+                        "lost wake-up: the waker handed to {} in its most recent poll was invoked {}, the child was not polled again before the combinator returned Pending, and the task that polled it was not woken",
+                        w.path(b),
+                        if during { "during this poll of the combinator (from inside a child's poll)" } else { "before this poll of the combinator" }
                     );
-                    w.violate(Oracle::L, m);
+                    let f = w.lost_wake_culprit(b).and_then(|c| w.nodes[c].family());
+                    w.violate_f(Oracle::L, f, m);
                 }
             }
         });
